@@ -45,7 +45,11 @@ func (c14) Gen(r *Rng, tier string, run int) *Trace {
 	s0 := g.addStack(kind, cap)
 	twin := g.addStack(kind, cap)
 	other := g.addStack(kind, cap)
-	c3 := g.addCond("kw", r.Range(1, 6), vStr("ex"))
+	ex3 := vStr("ex")
+	if r.Bool(0.3) {
+		ex3 = vNil() // an incomplete Condition: only an installed validity closure can call it valid
+	}
+	c3 := g.addCond("kw", r.Range(1, 6), ex3)
 	c4 := g.addCond("kw", r.Range(1, 6), vStr("ex"))
 	g.emit(Op{Obj: other, M: "Push", Args: []Val{vStr("o1")}}, true)
 	// fault plan: push0 rejects the k-th consultation and/or a value class
@@ -451,6 +455,8 @@ func (c14) query(x *Exec, st *c14state, op Op, out Outcome, log []Consult) {
 			if s, has := m.Pol["pres"]; has {
 				want, src = "PRES"+itoa(s), "presentation closure"
 				st.closureSeen = true
+			} else if !m.ExSet {
+				return // declared valid by the closure but nothing to render: unspecified
 			} else if t, known := m.render(w); known {
 				want, src = t, "built-in rendering"
 				if st.closureSeen {
@@ -469,7 +475,7 @@ func (c14) query(x *Exec, st *c14state, op Op, out Outcome, log []Consult) {
 			if want := verdictOf(x, "equal"+itoa(s)); out.Ret[0] != want {
 				fail("equality closure", want)
 			}
-		} else if out.Ret[0] != "nil" && w.objs[3].keepC.Operator() == w.objs[4].keepC.Operator() {
+		} else if o := st.m.C[4]; out.Ret[0] != "nil" && o != nil && m.Op == o.Op && m.Kw == o.Kw && m.ExSet && o.ExSet && m.Ex.D == o.Ex.D {
 			fail("built-in comparison of equal conditions", "nil")
 		}
 	case "Unmarshal":
@@ -479,7 +485,7 @@ func (c14) query(x *Exec, st *c14state, op Op, out Outcome, log []Consult) {
 			if got != want {
 				fail("unmarshal closure", want)
 			}
-		} else if want := "([\"CONDITION\" " + w.describe(m.Kw) + " " + m.Op + " " + m.Ex.D + "], nil)"; got != want {
+		} else if want := "([\"CONDITION\" " + w.describe(m.Kw) + " " + m.Op + " " + exD(m) + "], nil)"; got != want {
 			fail("built-in unmarshal", want)
 		}
 	case "Evaluate":
@@ -560,4 +566,11 @@ func rejectsBad(x *Exec, st *c14state) bool {
 		}
 	}
 	return false
+}
+
+func exD(m *MCond) string {
+	if !m.ExSet {
+		return "nil"
+	}
+	return m.Ex.D
 }
